@@ -8,6 +8,7 @@ import Drand.Net.Protocol
 import DrandProofs.C02
 import DrandProofs.C07Net
 import DrandProofs.C07Chain
+import DrandProofs.C07Repaired
 
 namespace Drand.Net
 
